@@ -17,6 +17,9 @@ Gen.MacroTables
                     `apply_macros_internal` / `apply_single_macro` (where the scan resumes after each operation), the
                     definitions of `new_end` / `tokens_added`, and the conditions of `find_single_macro` that consult
                     the three fields
+  userArmStatements / bodyAlwaysRescanned  the statement sequence of the `FoundMacro::User` arm from the substitution of the
+                    replacement list to `tokens.splice`: disable, rescan (`apply_macros_internal` on the substituted list),
+                    enable -- with no conditional statement in between (seeded mutant C12-3 guarded the rescan)
 """
 import re
 
@@ -153,6 +156,59 @@ def register(gen, T):
             lets.append(m2.group(1).strip())
         out.append("/-- `let tokens_added = ..; let new_end = ..; let end = ..;` in the `User` arm -/\n")
         out.append("def userArmLets : List String := " + T.lean_list(lean_str(x) for x in lets) + "\n\n")
+        # --- the User arm between substitution and splice: the rescan of the substituted body is unconditional ------
+        um = re.search(r'FoundMacro::User\(macro_index, pos\)\s*=>\s*\{', asm)
+        if not um:
+            raise ExtractError("apply_single_macro: the `FoundMacro::User` arm not found")
+        ub = um.end() - 1
+        arm = asm[ub + 1:_matching(asm, ub)]
+        stmts = [normws(x) for x in split_top(arm, ';') if x.strip()]
+        # a block statement (`for .. { .. }`, `if .. { .. }`) is not terminated by `;`: cut it off the statement that follows
+        flat = []
+        for st in stmts:
+            while True:
+                mb = re.match(r'(for|if|while|loop|match)\b', st)
+                if not mb:
+                    break
+                jb = st.find('{')
+                if jb < 0:
+                    break
+                eb = _matching(st, jb)
+                # `if .. {..} else {..}` chains
+                rest = st[eb + 1:].lstrip()
+                while rest.startswith('else'):
+                    jb2 = st.find('{', eb + 1)
+                    eb = _matching(st, jb2)
+                    rest = st[eb + 1:].lstrip()
+                flat.append(normws(st[:eb + 1]))
+                st = rest
+                if not st:
+                    break
+            if st:
+                flat.append(st)
+        try:
+            i_sub = next(i for i, st in enumerate(flat) if st.startswith('let mut output = Vec::with_capacity('))
+            i_spl = next(i for i, st in enumerate(flat) if st.startswith('tokens.splice(pos..end, output)'))
+        except StopIteration:
+            raise ExtractError("apply_single_macro: substitution / splice statements of the `User` arm not found")
+        seq = flat[i_sub:i_spl + 1]
+        out.append("/-- the statements of the `User` arm of `apply_single_macro` from the substitution of the replacement list to the\n"
+                   "splice, in order (block statements whole) -/\n")
+        out.append("def userArmStatements : List String :=\n  " + T.lean_list(lean_str(x) for x in seq) + "\n\n")
+        rescan = "let output = apply_macros_internal(output, macro_defs, macro_disabled, false, source_manager)?"
+        plain = [st for st in seq if not st.startswith('assert!(')]
+        always = (rescan in seq
+                  and all(not re.match(r'(if|match|while|loop)\b', st) for st in seq)
+                  and sum(1 for st in seq if 'apply_macros_internal' in st) == 1
+                  and len(plain) >= 5
+                  and plain[1].startswith('for token in &macro_def.tokens {')
+                  and plain[2] == 'macro_disabled[macro_index] = true'
+                  and plain[3] == rescan
+                  and plain[4] == 'macro_disabled[macro_index] = false')
+        out.append("/-- between substitution and splice there is no conditional statement: the substituted replacement list is handed to\n"
+                   "`apply_macros_internal` (macro disabled before, enabled after) on every path -/\n")
+        out.append(f"def bodyAlwaysRescanned : Bool := {'true' if always else 'false'}\n\n")
+
         fsm = normws(fn_body(pre, "find_single_macro"))
         uses = []
         for pat in (r'let mut i = (search_pos\.[a-z_]+);',
